@@ -154,7 +154,7 @@ def _mk_props(stname, full):
         for d in range(k_ok):
             if dev == d:
                 kinds[d] = kind
-        return h_props(bits, kinds, has_site)
+        return body(bits, kinds, has_site)
 
     def h_props(bits: List[bool], kinds: List[int], has_site: bool) -> bool:
         """
@@ -162,6 +162,10 @@ def _mk_props(stname, full):
         pre: all(0 <= x < len(ITYPES) for x in kinds)
         post: R(_)
         """
+        return body(bits, kinds, has_site)
+
+    def body(bits, kinds, has_site):
+        # NOTE: no contract on this helper - CrossHair may replace a call to a function that HAS a contract by its postcondition
         begin()
         present = [constrained[i] for i in range(NP) if bits[i]]
         declared = SITES[0] if has_site else None
